@@ -392,6 +392,7 @@ MUTANTS = [
     M("side-effect", CM, "BaseImage._check_style_args", "        return style_args\n", "        cls._last_style_args = style_args\n        return style_args\n", {"R4"}),
     M("format-via-base-class", CM, "BaseImage.__format__", "style_args = self._check_format_spec(", "style_args = BaseImage._check_format_spec(", {"R5"}),
     M("style-spec-via-base-class", CM, "BaseImage._check_format_spec", "style_spec and cls._check_style_format_spec(style_spec, style_spec)", "style_spec and BaseImage._check_style_format_spec(style_spec, style_spec)", {"R5"}),
+    M("z-field-digit-bound", K, None, 'r"[LW] z-?\\d+ m[01] c[0-9]"', 'r"[LW] z-?\\d{1,10} m[01] c[0-9]"', {"R3"}),
     M("twin-raw-grammar", CM, None, "[0-9a-fA-F]{6}|#)?)?(\\+(.+))?\",\n    re.ASCII,", "[0-9A-Fa-f]{6}|#)?)?(\\+(.+))?\",\n    re.ASCII,", twin=True),
     M("twin-rename-local", CM, "BaseImage._check_format_spec", "match_", "m_", twin=True, count=3),
 ]
